@@ -684,7 +684,7 @@ func (s *scanTracker) policy(t *sched.Task, op *sched.Op) sched.Decision {
 		return sched.Decision{}
 	}
 	src := s.d.r.Src
-	if !src.Bool(1, s.den) {
+	if len(op.Faults) == 0 || !src.Bool(1, s.den) {
 		return sched.Decision{}
 	}
 	return sched.Decision{Err: op.Faults[src.Intn(len(op.Faults))]}
